@@ -7,6 +7,7 @@
  * gram (systematic + random well-formed trees and their single-edit
  * neighbours), deep (nesting chains around the limit), seq (C14). */
 #include <stdio_ext.h>
+#include <sys/mman.h>
 
 #include "vh.h"
 
@@ -114,6 +115,44 @@ static void describe_to_failing_sinks(const cbor_item_t* it, size_t n_in) {
   }
 }
 
+/* The decoders may write only memory obtained from the allocator: the same bytes decoded again from pages the process
+ * cannot write (PROT_READ, the last byte abutting an inaccessible page), as a client does with a constant table or a
+ * file mapping. A store into the input - even one undone before returning - is a SIGSEGV there; the verdicts must equal
+ * those obtained from writable memory. */
+enum { RO_IN_BYTES = 1 << 16 };
+static uint8_t* g_ro_in;
+static uint64_t g_ro_in_cases;
+static void readonly_input_pass(const uint8_t* src, size_t n, bool had_item, size_t read, int code) {
+  if (n == 0 || n > RO_IN_BYTES) return;
+  if (!g_ro_in) {
+    g_ro_in = mmap(NULL, RO_IN_BYTES + 4096, PROT_NONE, MAP_PRIVATE | MAP_ANONYMOUS | MAP_NORESERVE, -1, 0);
+    if (g_ro_in == MAP_FAILED) vh_die("read-only input region: mmap failed");
+  }
+  uint8_t* at = g_ro_in + RO_IN_BYTES - n;
+  uint8_t* pg = (uint8_t*)((uintptr_t)at & ~(uintptr_t)4095);
+  size_t plen = (size_t)(g_ro_in + RO_IN_BYTES - pg);
+  if (mprotect(pg, plen, PROT_READ | PROT_WRITE)) vh_die("read-only input region: mprotect failed");
+  memcpy(at, src, n);
+  if (mprotect(pg, plen, PROT_READ)) vh_die("read-only input region: mprotect failed");
+  struct cbor_load_result r;
+  memset(&r, 0x5A, sizeof r);
+  const uint64_t ref0 = TA.refused;
+  cbor_item_t* it = cbor_load(at, n, &r);
+  if (TA.refused == ref0 && ((it != NULL) != had_item || (it && r.read != read) || (!it && (int)r.error.code != code)))
+    vh_violation("readonly-input-differs", "cbor_load of the same %zu bytes from read-only pages gave %s/read %zu/code %d, from writable memory %s/read %zu/code %d", n, it ? "item" : "NULL", it ? r.read : 0, (int)r.error.code,
+                 had_item ? "item" : "NULL", read, code);
+  if (it) cbor_decref(&it);
+  size_t off = 0;
+  while (off < n) {
+    struct cbor_decoder_result d = cbor_stream_decode(at + off, n - off, &cbor_empty_callbacks, NULL);
+    if (d.status != CBOR_DECODER_FINISHED || d.read == 0) break;
+    off += d.read;
+  }
+  if (mprotect(pg, plen, PROT_NONE)) vh_die("read-only input region: mprotect failed");
+  g_ro_in_cases++;
+  if ((g_ro_in_cases & 1023) == 0) VH_COUNT("readonly_input_decodes", 1024);
+}
+
 static void c01_case(const uint8_t* src, size_t n) {
   /* the start of the caller's buffer takes every alignment 0..15 over the cases (the end always abuts the red zone) */
   void* in_base;
@@ -125,6 +164,9 @@ static void c01_case(const uint8_t* src, size_t n) {
   memset(&r, 0xA5, sizeof r);
   VH_POISON(&r, sizeof r); /* msan flavour: a field the library leaves unwritten stays poisoned */
   cbor_item_t* it = cbor_load(in, n, &r);
+  const bool first_item = it != NULL, first_refused = TA.refused != 0;
+  const size_t first_read = it ? r.read : 0;
+  const int first_code = (int)r.error.code;
   {
     long u1 = VH_UNINIT_AT(&r.error.code, sizeof r.error.code), u2 = VH_UNINIT_AT(&r.error.position, sizeof r.error.position), u3 = VH_UNINIT_AT(&r.read, sizeof r.read);
     if (u1 >= 0 || (!it && (u2 >= 0 || u3 >= 0)))
@@ -196,6 +238,8 @@ static void c01_case(const uint8_t* src, size_t n) {
     ta_forget_all();
   }
   if (TA.refused) VH_COUNT("cases_with_refusal", 1);
+  if (!first_refused) readonly_input_pass(src, n, first_item, first_read, first_code);
+  if (ta_live_count() != 0) { vh_violation("leak", "%zu block(s) still allocated after decoding from read-only pages", ta_live_count()); ta_forget_all(); }
   stream_pass(in, n, &cbor_empty_callbacks, false);
   stream_pass(in, n, &rec_table, true);
   if (rec_bad_ctx) vh_violation("stream-wrong-context", "a callback received a context pointer other than the caller's");
